@@ -72,6 +72,24 @@ def _ops():
         def visit_VOne(self, node):
             return _CTX["bystander"]
 
+    def partial(raise_at: int):
+        """Rewrites the first leaf it meets, keeps the following ones and raises at the raise_at-th:
+        by then replacements (rebuilt parents that still hold untouched original children) exist."""
+
+        class Partial(ASTTransformVisitor):
+            def __init__(self):
+                self.seen = 0
+
+            def visit_VLeaf(self, node):
+                self.seen += 1
+                if self.seen == 1:
+                    return dc.replace(node, v=node.v + 1)
+                if self.seen >= raise_at:
+                    raise RuntimeError("boom, late")
+                return node
+
+        return Partial
+
     class Collect(ASTVisitor[list]):
         def generic_visit(self, node):
             return [type(node).__name__] + [x for c in node.get_child_nodes() for x in self.visit(c)]
@@ -97,7 +115,10 @@ def _ops():
         "xpath-match": lambda r, n: ASTXpath("//VLeaf").match(r, n), "pattern": lambda r, n: NodeMatcher.from_pattern("(* @v -> x)")[0].match(n),
         "multi-pattern": lambda r, n: MultiPatternMatcher([("a", "(VMixed @items=[* -> t])"), ("b", "(*)")]).match(n),
         "visit": lambda r, n: Collect().visit(r), "transform-rewrite": lambda r, n: Rewrite().transform(r), "transform-remove": lambda r, n: Remove().transform(r),
-        "transform-raises": safe(lambda r, n: Raises().transform(r)), "transform-returns-existing-nodes": lambda r, n: Unwrap().transform(r), "duplicate": lambda r, n: n.duplicate(),
+        "transform-raises": safe(lambda r, n: Raises().transform(r)),
+        "transform-rewrites-one-leaf-then-raises-at-the-third": safe(lambda r, n: partial(3)().transform(r)),
+        "transform-rewrites-one-leaf-then-raises-at-the-second": safe(lambda r, n: partial(2)().transform(r)),
+        "transform-rewrites-one-leaf-then-raises-at-the-fourth": safe(lambda r, n: partial(4)().transform(r)), "transform-returns-existing-nodes": lambda r, n: Unwrap().transform(r), "duplicate": lambda r, n: n.duplicate(),
         "replace": lambda r, n: n.replace(origin=n.origin), "replace-raises": safe(lambda r, n: n.replace(no_such=1)),
         "replace-rejected-by-subclass-validation": safe(lambda r, n: n.replace(note="bad")),
         "dataclasses.replace-rejected-by-subclass-validation": safe(lambda r, n: dc.replace(n, note="bad")),
